@@ -443,6 +443,7 @@ class Result:
 
 _JOB: Job = None
 _DEADLINE = None
+_CHECK_T0 = time.time()
 
 
 def _run_prefix(prefix):
@@ -469,13 +470,18 @@ def _enumerate(job, depth, level=None):
     eng = ENG = job.make_engine()
     eng.depth_limit = depth
     eng.cut_level = level
+    eng.deadline = _DEADLINE
     prefixes = []
     for rec in eng.explore(job.once, ()):
         if isinstance(rec, tuple) and rec and rec[0] == "__abort__":
-            prefixes.append(rec[2])
+            if rec[1] == "deadline":
+                res.aborted += 1
+                res.frontier += eng.frontier() + 1
+            else:
+                prefixes.append(rec[2])
         else:
             res.absorb(job, rec)
-    eng.st["paths"] = eng.st.get("paths", 0) - len(prefixes)
+    eng.st["paths"] = eng.st.get("paths", 0) - len(prefixes) - res.aborted
     res.stats.merge(eng.st)
     res.tsolver = eng.tsolver
     return res, prefixes
@@ -487,6 +493,13 @@ def run_job(job: Job, workers=None, budget_s=None, split_target=None) -> Result:
     t0 = time.time()
     workers = workers or int(os.environ.get("VERIF_WORKERS", "0")) or min(8, os.cpu_count() or 1)
     _JOB = job
+    if budget_s is None:
+        # wall budget per exploration: a run that does not finish is reported as non-exhaustive, never as a pass of the whole space
+        budget_s = float(os.environ.get("VERIF_JOB_BUDGET", "0") or 0) or (900 if os.environ.get("VERIF_TIER", "quick") == "quick" else 5400)
+    # ... and per check: when it is used up the remaining explorations are cut at once
+    check_budget = float(os.environ.get("VERIF_CHECK_BUDGET", "0") or 0) or (2700 if os.environ.get("VERIF_TIER", "quick") == "quick" else 4 * 3600)
+    left = _CHECK_T0 + check_budget - t0
+    budget_s = max(1.0, min(budget_s, left))
     _DEADLINE = (t0 + budget_s) if budget_s else None
     if workers <= 1:
         res = _run_prefix(())
